@@ -4,9 +4,9 @@ use crate::support::*;
 use educe::Educe;
 use core::cmp::Ordering;
 #[derive(Educe)]
-#[educe(Default)]
-pub union T { #[educe(Default)] x: u16, c: u64 }
-
+#[educe(Debug(unsafe), Clone, Hash(unsafe))]
+pub union T { state: u64, f: C<1> }
+impl Copy for T {}
 pub fn mk(pattern: u8) -> T { let mut x = ::core::mem::MaybeUninit::<T>::uninit(); unsafe { ::core::ptr::write_bytes(x.as_mut_ptr() as *mut u8, 0, ::core::mem::size_of::<T>()); let p = x.as_mut_ptr() as *mut u8; for i in 0..::core::mem::size_of::<T>() { *p.add(i) = pattern.wrapping_mul(i as u8 + 1).wrapping_add(i as u8); } x.assume_init() } }
 pub fn bytes(x: &T) -> &[u8] { unsafe { ::core::slice::from_raw_parts(x as *const T as *const u8, ::core::mem::size_of::<T>()) } }
-pub fn run(out: &mut Out) { { let d = <T as ::core::default::Default>::default(); let e = T { x: ::core::default::Default::default() }; let n = ::core::mem::size_of::<u16>(); out.check(bytes(&d)[..n] == bytes(&e)[..n], "union_0", "union_default", || format!("default() initialised {:?} expected field x = {:?}", &bytes(&d)[..n], &bytes(&e)[..n])); } }
+pub fn run(out: &mut Out) { for p in 0..6u8 { let a = mk(p); let mut g = Rec::default(); ::core::hash::Hash::hash(&a, &mut g); let mut e = Rec::default(); ::core::hash::Hash::hash(bytes(&a), &mut e); out.check(g.0 == e.0, "union_0", "union_hash", || format!("hash fed {:?} expected {:?}", g.0, e.0)); } for p in 0..6u8 { let a = mk(p); let g = format!("{:?}", a); let e = format!("{:?}", Fm(|f: &mut ::core::fmt::Formatter<'_>| f.debug_tuple("T").field(&bytes(&a)).finish())); out.check(g == e, "union_0", "union_debug", || format!("{{:?}} = {:?} expected {:?}", g, e)); let g = format!("{:#?}", a); let e = format!("{:#?}", Fm(|f: &mut ::core::fmt::Formatter<'_>| f.debug_tuple("T").field(&bytes(&a)).finish())); out.check(g == e, "union_0", "union_debug_alt", || format!("{{:#?}} = {:?} expected {:?}", g, e)); } for p in 0..6u8 { let a = mk(p); let b = ::core::clone::Clone::clone(&a); out.check(bytes(&a) == bytes(&b), "union_0", "union_clone", || format!("clone {:?} of {:?}", bytes(&b), bytes(&a))); } }
